@@ -234,6 +234,9 @@ func ruleReceiveOrder(c *Ctx, r *Report) {
 			if _, ok := allowed[short(s.Fn)]; ok {
 				continue
 			}
+			if isMarkerWrapper(s.Fn) {
+				continue // the commit closure of a replay marker forwards to it
+			}
 			if !helperOfConsumer(s.Fn, d+1) {
 				return false
 			}
@@ -478,8 +481,9 @@ func ruleReceivePositionOnCommit(c *Ctx, r *Report) {
 				}
 			}
 		} else {
-			// a method: never called directly, never reached through an interface
-			closed = !c.methodInSomeInterface(s.Fn)
+			// a named function: never reached through an interface, and called directly only by
+			// literals that forward to it and are themselves commit closures
+			closed = s.Fn.Signature.Recv() == nil || !c.methodInSomeInterface(s.Fn)
 			var ops []*ssa.Value
 			for _, g := range c.Fns {
 				for _, b := range g.Blocks {
@@ -487,7 +491,17 @@ func ruleReceivePositionOnCommit(c *Ctx, r *Report) {
 						ops = in.Operands(ops[:0])
 						for _, op := range ops {
 							if op != nil && *op == ssa.Value(s.Fn) {
+								if fw := forwardingLiteral(g); fw != nil && fw == in {
+									continue
+								}
 								closed = false
+							}
+						}
+						if mc, isMC := in.(*ssa.MakeClosure); isMC {
+							if lit, isF := mc.Fn.(*ssa.Function); isF && forwardingLiteral(lit) != nil {
+								if cf := commitFnOf(mc); cf != nil && cf.body == s.Fn {
+									closures = append(closures, mc)
+								}
 							}
 						}
 						if mc, isMC := in.(*ssa.MakeClosure); isMC {
@@ -909,6 +923,75 @@ type commitFn struct {
 	holds func(v ssa.Value) bool
 }
 
+// forwardingLiteral: a function literal whose whole body is `return g(...)` with g a named
+// function of the same package; the call is returned.
+func forwardingLiteral(f *ssa.Function) *ssa.Call {
+	if f.Parent() == nil || len(f.Blocks) != 1 {
+		return nil
+	}
+	var call *ssa.Call
+	for _, in := range f.Blocks[0].Instrs {
+		switch x := in.(type) {
+		case *ssa.UnOp, *ssa.DebugRef:
+		case *ssa.Call:
+			if call != nil {
+				return nil
+			}
+			call = x
+		case *ssa.Return:
+			if call == nil || len(x.Results) != 1 || x.Results[0] != ssa.Value(call) {
+				return nil
+			}
+		default:
+			return nil
+		}
+	}
+	if call == nil {
+		return nil
+	}
+	g := call.Call.StaticCallee()
+	if g == nil || g.Parent() != nil || g.Pkg != f.Pkg || len(g.Blocks) == 0 {
+		return nil
+	}
+	return call
+}
+
+func commitFnOfLiteral(mc *ssa.MakeClosure, f *ssa.Function, onlyStore func(ssa.Value) ssa.Value) *commitFn {
+	binding := func(i int) ssa.Value {
+		if i >= len(mc.Bindings) {
+			return nil
+		}
+		b := mc.Bindings[i]
+		if al, isAl := b.(*ssa.Alloc); isAl {
+			// captured by reference: what the cell holds
+			return onlyStore(al)
+		}
+		return b
+	}
+	return &commitFn{
+		body: f,
+		bound: func(v ssa.Value) ssa.Value {
+			if u, isU := v.(*ssa.UnOp); isU && u.Op == token.MUL {
+				v = u.X
+			}
+			for i, fv := range f.FreeVars {
+				if ssa.Value(fv) == v {
+					return binding(i)
+				}
+			}
+			return nil
+		},
+		holds: func(v ssa.Value) bool {
+			for i := range f.FreeVars {
+				if binding(i) == v {
+					return true
+				}
+			}
+			return false
+		},
+	}
+}
+
 func commitFnOf(mc *ssa.MakeClosure) *commitFn {
 	f, ok := mc.Fn.(*ssa.Function)
 	if !ok {
@@ -931,39 +1014,32 @@ func commitFnOf(mc *ssa.MakeClosure) *commitFn {
 		return val
 	}
 	if !strings.HasPrefix(f.Synthetic, "bound method wrapper") {
-		binding := func(i int) ssa.Value {
-			if i >= len(mc.Bindings) {
-				return nil
-			}
-			b := mc.Bindings[i]
-			if al, isAl := b.(*ssa.Alloc); isAl {
-				// captured by reference: what the cell holds
-				return onlyStore(al)
-			}
-			return b
-		}
-		return &commitFn{
-			body: f,
-			bound: func(v ssa.Value) ssa.Value {
+		if fw := forwardingLiteral(f); fw != nil {
+			// a literal that only hands what it captured to a named function of the package:
+			// that function is the commit function, its parameters stand for the captures
+			g := fw.Call.StaticCallee()
+			inner := commitFnOfLiteral(mc, f, onlyStore)
+			argOf := func(v ssa.Value) ssa.Value {
 				if u, isU := v.(*ssa.UnOp); isU && u.Op == token.MUL {
 					v = u.X
 				}
-				for i, fv := range f.FreeVars {
-					if ssa.Value(fv) == v {
-						return binding(i)
-					}
+				p, isP := v.(*ssa.Parameter)
+				if !isP || p.Parent() != g {
+					return nil
+				}
+				pi := paramIndex(p)
+				if pi < 0 || pi >= len(fw.Call.Args) {
+					return nil
+				}
+				a := fw.Call.Args[pi]
+				if b := inner.bound(a); b != nil {
+					return b
 				}
 				return nil
-			},
-			holds: func(v ssa.Value) bool {
-				for i := range f.FreeVars {
-					if binding(i) == v {
-						return true
-					}
-				}
-				return false
-			},
+			}
+			return &commitFn{body: g, bound: argOf, holds: inner.holds}
 		}
+		return commitFnOfLiteral(mc, f, onlyStore)
 	}
 	// a method value: the wrapper calls the method with the bound receiver
 	if len(mc.Bindings) != 1 || len(f.Blocks) == 0 {
